@@ -47,7 +47,7 @@ def handle (line : String) : String :=
     | "nand-open" | "nand-ops" | "nand-hdr" => handleNand cmd args
     | "close-run" => handleClose args
     | "sched-check" => handleSched args
-    | "apptitle" | "smdh-bits" | "tiled" | "seeddb" | "cfg-load" | "cfg-build" | "lzss" | "desc-rt" | "bits16" => handleCodec cmd args
+    | "apptitle" | "smdh-bits" | "tiled" | "seeddb" | "cfg-load" | "cfg-build" | "cfg-ops" | "lzss" | "desc-rt" | "bits16" => handleCodec cmd args
     | "ping" => "pong"
     | _ => "bad-cmd"
   | _ => "bad-line"
